@@ -1,5 +1,6 @@
 SPECIFICATION Spec
 CONSTANTS Growth = 3 Mode = "values" MaxBits = 0 Wide = TRUE Lean = TRUE
+INVARIANT UniverseLegal
 INVARIANT RoundTrip
 INVARIANT LengthInBLS
 INVARIANT WholeBytes
